@@ -43,7 +43,8 @@ type Ctx struct {
 	Prop     string
 	Seed     int64
 	Tier     string
-	Paths    [][]Op
+	Paths    [][]Op            // TLC-generated operation paths (arrays of op records)
+	RawPaths []json.RawMessage // TLC-generated lines of any other shape
 	outDir   string
 	shards   []*bufio.Writer
 	files    []*os.File
@@ -138,6 +139,19 @@ func guard(ev Ev, f func()) (ok bool) {
 	}()
 	f()
 	return true
+}
+
+// genGuard runs the body of one generated history.  If the generator itself
+// trips over inconsistent answers of the code under test (e.g. Len() > 0 but
+// no keys), the history simply ends there: the events already logged carry
+// the inconsistency to TLC.
+func (c *Ctx) genGuard(body func()) {
+	defer func() {
+		if r := recover(); r != nil {
+			c.Counters["generator-aborted"]++
+		}
+	}()
+	body()
 }
 
 func die(f string, a ...any) {
@@ -263,9 +277,11 @@ func main() {
 	out := fs.String("out", "", "output directory (run) or file (confirm)")
 	shards := fs.Int("shards", 16, "number of shard files")
 	witness := fs.String("witness", "", "witness file (confirm)")
+	rev := fs.Bool("rev", false, "use the reversed comparator (C04)")
 	fs.Parse(os.Args[3:])
 
 	c := &Ctx{Prop: prop, Seed: *seed, Tier: *tier, Counters: map[string]int{}, Extra: map[string]any{}}
+	c.Extra["rev"] = *rev
 	switch mode {
 	case "run":
 		if *out == "" {
@@ -282,7 +298,16 @@ func main() {
 			c.shards = append(c.shards, bufio.NewWriterSize(f, 1<<20))
 		}
 		if *paths != "" {
-			c.Paths = readNDJSON[[]Op](*paths)
+			c.RawPaths = readNDJSON[json.RawMessage](*paths)
+			for _, r := range c.RawPaths {
+				if len(r) > 0 && r[0] == '[' {
+					var ops []Op
+					if err := json.Unmarshal(r, &ops); err != nil {
+						die("path: %v", err)
+					}
+					c.Paths = append(c.Paths, ops)
+				}
+			}
 		}
 		p.Run(c)
 		for i, w := range c.shards {
@@ -291,7 +316,7 @@ func main() {
 		}
 		meta := map[string]any{
 			"property": prop, "seed": *seed, "tier": *tier,
-			"histories": c.nextH, "events": c.nEvents, "paths": len(c.Paths),
+			"histories": c.nextH, "events": c.nEvents, "paths": len(c.RawPaths),
 			"counters": c.Counters, "samples": c.Samples, "extra": c.Extra,
 		}
 		b, _ := json.MarshalIndent(meta, "", " ")
